@@ -37,7 +37,7 @@ struct Rng {
 };
 
 // ---------------------------------------------------------------- limits
-enum { MAXTASK = 16, MAXOPS = 320, MAXVIOL = 8, LOGCAP = 1 << 21, MAXPROBE = 48, MAXFAULTKIND = 16 };
+enum { MAXTASK = 16, MAXOPS = 4096, MAXVIOL = 8, LOGCAP = 1 << 21, MAXPROBE = 48, MAXFAULTKIND = 16 };
 
 struct Viol {
   char cls[32];     // violation class
